@@ -25,7 +25,7 @@ fn run_pkg(dir: &str, release: bool) -> serde_json::Value {
         let mut opts = forc_test::TestOpts::default();
         opts.pkg.path = Some(dir.to_string());
         opts.pkg.offline = true;
-        opts.pkg.terse = true;
+        opts.pkg.terse = std::env::var("SWAYRUN_VERBOSE").is_err();
         opts.release = release;
         let built = forc_test::build(opts)?;
         let tested = built.run(
